@@ -1344,7 +1344,7 @@ def run(chk):
         "(coverage.wide_constructs_oracle_only) are NOT in the Coq model: they are exercised by the differential oracle only, expected output "
         "from the Python reference evaluator in checks/c01.py (WEval)",
     ]
-    if not any(f.get("id") == "enumerate-index-usize" for f in chk.findings):
+    if os.environ.get("VERIF_KF_DEV") and not any(f.get("id") == "enumerate-index-usize" for f in chk.findings):
         # TEMPORARY fallback until the lead merges build/kf-C01.json into known_findings.json (drop after merging)
         try:
             chk.findings = json.load(open(os.path.join(vlib.VERIF, "build", "kf-C01.json")))
@@ -2705,6 +2705,31 @@ def m_culprits(msg, main_rs):
     return {re.sub(r"_h$", "", n) for n in bad} | {m.group(1) for n in bad for m in [re.match(r"(m\d+)_", n)] if m}
 
 
+def m_errors_by_owner(msg, main_rs):
+    """cell name -> text of the first rustc error reported inside that cell's function(s)"""
+    try:
+        lines = open(main_rs).read().split("\n")
+    except OSError:
+        return {}
+    starts = [(i + 1, m.group(1)) for i, l in enumerate(lines) for m in [re.match(r"\s*(?:pub )?fn (?:r#)?(\w+)\(", l)] if m]
+    out = {}
+    for b in re.split(r"\n(?=error|warning)", msg):
+        if not b.startswith("error") or b.startswith("error: could not compile") or b.startswith("error: aborting"):
+            continue
+        m = re.search(r"--> src/main\.rs:(\d+):", b)
+        if not m:
+            continue
+        owner = None
+        for st, name in starts:
+            if st <= int(m.group(1)):
+                owner = name
+        if owner:
+            owner = re.sub(r"_h$", "", owner)
+            mm = re.match(r"(m\d+)_", owner)
+            out.setdefault(mm.group(1) if mm else owner, b)
+    return out
+
+
 def matrix_oracle(chk, binary, tag, prop, known):
     """binder x source x use matrix + elif ladders (see the section comment).  prop "C02": every cell the checker accepts
     must generate and compile; prop "C01": every cell that compiles must print what the Python reading prints.
@@ -2767,6 +2792,7 @@ def matrix_oracle(chk, binary, tag, prop, known):
                 break
             path = None
             bad = m_culprits(msg, os.path.join(d, "out_" + stem, "src", "main.rs"))
+            owner_err = m_errors_by_owner(msg, os.path.join(d, "out_" + stem, "src", "main.rs"))
             errs = [b for b in re.split(r"\n(?=error|warning)", msg) if b.startswith("error") and "could not compile" not in b and "aborting" not in b]
             culprits = [(c, n) for c, n in live if n in bad]
             if not culprits:
@@ -2774,10 +2800,18 @@ def matrix_oracle(chk, binary, tag, prop, known):
                               "actual": "\n".join(errs)[:2500], "stage": "rustc", "oracle": oracle})
                 live = []
                 break
-            for c, n in culprits[:12]:
-                mine = [b for b in errs if re.search(r"\b%s(_\w+)?\b" % n, b)] or errs[:1]
+            stats["matrix_rustc_culprits_by_binder_source"] = {}
+            shown, per = [], {}
+            for c, n in culprits:
+                k = "%s/%s" % (c.attrs["binder"], c.attrs["source"])
+                stats["matrix_rustc_culprits_by_binder_source"][k] = stats["matrix_rustc_culprits_by_binder_source"].get(k, 0) + 1
+                per[k] = per.get(k, 0) + 1
+                if per[k] <= 2 and len(shown) < 60:
+                    shown.append((c, n))
+            for c, n in shown:
+                mine = [owner_err[n]] if n in owner_err else errs[:1]
                 fails.append({"case": single(c, "t0"), "program": single(c, "t0"), "cell": c.attrs, "stage": "rustc", "expected": exp[n],
-                              "actual": "\n".join(mine)[:1800] if len(culprits) < 4 else "\n".join(errs)[:1800],
+                              "actual": "\n".join(mine)[:1800],
                               "why": "the checker accepts this program, code generation succeeds, rustc rejects the generated Rust", "oracle": oracle})
             live = [(c, n) for c, n in live if n not in bad]
             rnd += 1
